@@ -701,6 +701,33 @@ func (x *Exec) libInvoke(s *State, site ssa.Instruction, full string, recv Val, 
 	case "context.Context.Err":
 		x.used(full)
 		return x.freshErr(s, site, "ctxerr"), true
+	case "ssh.PublicKey.Marshal":
+		x.used(full + ": injective wire encoding of the key (ufs_key_marshal)")
+		iv, _ := recv.(*IfaceV)
+		var id *Term = Int(0)
+		if iv != nil && iv.Opaque != nil {
+			id = iv.Opaque
+		}
+		m := UF("ufs_key_marshal", SString, id)
+		o := x.E.storeObject(x.siteTag(site)+":marshal", types.NewArray(types.Typ[types.Byte], 0), false, "arr")
+		s.heap[o.id] = &ArrV{Elem: types.Typ[types.Byte], IsStr: true, T: m}
+		return &SliceV{Nil: TFalse, Obj: o, Off: Int(0), Len: StrLen(m), Cap: StrLen(m), Elem: types.Typ[types.Byte]}, true
+	case "ssh.ConnMetadata.User", "net.Addr.String", "ssh.Conn.User":
+		x.used(full + ": a pure function of the connection")
+		iv, _ := recv.(*IfaceV)
+		var id *Term = Int(0)
+		if iv != nil && iv.Opaque != nil {
+			id = iv.Opaque
+		}
+		return UF("ufs_"+strings.ReplaceAll(strings.ReplaceAll(full, ".", "_"), "/", "_"), SString, id), true
+	case "ssh.ConnMetadata.RemoteAddr", "ssh.Conn.RemoteAddr":
+		x.used(full + ": a pure function of the connection")
+		iv, _ := recv.(*IfaceV)
+		var id *Term = Int(0)
+		if iv != nil && iv.Opaque != nil {
+			id = iv.Opaque
+		}
+		return &IfaceV{Nil: TFalse, Opaque: UF("uf_conn_remoteaddr", SInt, id)}, true
 	case "error.Error":
 		x.used(full)
 		return x.freshStr(s, site, "errstr"), true
